@@ -275,6 +275,38 @@ def run_c10(ctx, prop):
         nodes = {"only": [iface], "iface-first": [iface] + extra, "iface-last": extra + [iface]}[order]
         return {"id": f"C10-named-{fname}-{order}", "files": [{"path": fname, "nodes": nodes}], "main": fname, "incdirs": []}
     fixed += [_named(fn, o) for fn in ("IClock.idl", "iclock.idl", "clock.idl") for o in ("only", "iface-first", "iface-last")]
+    # argument counts exactly at the limit are legal, whatever else the method carries
+    def _P(d_, t_, n_, a_=None):
+        return {"dir": d_, "type": t_, "arr": a_, "name": n_}
+    for d_, od_ in (("in", "out"), ("out", "in")):
+        for filler in (("buffer", None), ("uint32", "unbounded")):
+            for same, other in ((0, 1), (0, 2), (2, 0), (2, 2), (0, 0)):
+                nfill = 15 - (1 if same >= 2 else 0)
+                ps_ = [_P(d_, filler[0], f"f{i_}", filler[1]) for i_ in range(nfill)]
+                ps_ += [_P(d_, "uint16", f"v{i_}") for i_ in range(same)]
+                ps_ += [_P(od_, "uint8", f"w{i_}") for i_ in range(other)]
+                fixed.append({"id": f"C10-limit-{d_}-{filler[0]}-{same}-{other}", "main": "main.idl", "incdirs": [], "files": [{"path": "main.idl", "nodes": [
+                    {"k": "interface", "name": "ILimit", "base": None, "members": [{"k": "method", "name": "full", "optional": False, "doc": None, "params": ps_}]}]}]})
+        fixed.append({"id": f"C10-limit-{d_}-objs", "main": "main.idl", "incdirs": [], "files": [{"path": "main.idl", "nodes": [
+            {"k": "interface", "name": "ILimit", "base": None, "members": [{"k": "method", "name": "full", "optional": False, "doc": None,
+             "params": [_P(d_, "interface", f"o{i_}") for i_ in range(15)] + [_P(od_, "interface", "z", 15), _P("in", "uint32", "x")]}]}]}]})
+    # the same file name in several directories, reached by bare name, ./ and dir/ spellings
+    def _st2(nm_):
+        return {"k": "struct", "name": nm_, "fields": [{"type": "uint64", "count": 1, "name": "v"}]}
+    fixed.append({"id": "C10-samename-0", "main": "main.idl", "incdirs": [], "files": [
+        {"path": "main.idl", "nodes": [{"k": "include", "path": "hal/ihal.idl"}, {"k": "include", "path": "types.idl"},
+                                       {"k": "interface", "name": "ICam", "base": None, "members": [{"k": "method", "name": "cfg", "optional": False, "doc": None,
+                                        "params": [_P("in", "Settings", "s"), _P("in", "HalCaps", "c")]}]}]},
+        {"path": "types.idl", "nodes": [_st2("Settings")]},
+        {"path": "hal/ihal.idl", "nodes": [{"k": "include", "path": "./types.idl"}, {"k": "interface", "name": "IHal", "base": None, "members": []}]},
+        {"path": "hal/types.idl", "nodes": [_st2("HalCaps")]}]})
+    fixed.append({"id": "C10-samename-1", "main": "main.idl", "incdirs": [], "files": [
+        {"path": "main.idl", "nodes": [{"k": "include", "path": "types.idl"}, {"k": "include", "path": "a/u.idl"}, {"k": "include", "path": "b/u.idl"},
+                                       {"k": "interface", "name": "IAll", "base": None, "members": [{"k": "method", "name": "all", "optional": False, "doc": None,
+                                        "params": [_P("in", "Settings", "s"), _P("in", "TA", "a"), _P("out", "TB", "b")]}]}]},
+        {"path": "types.idl", "nodes": [_st2("Settings")]},
+        {"path": "a/u.idl", "nodes": [{"k": "include", "path": "inc/t.idl"}]}, {"path": "a/inc/t.idl", "nodes": [_st2("TA")]},
+        {"path": "b/u.idl", "nodes": [{"k": "include", "path": "inc/t.idl"}]}, {"path": "b/inc/t.idl", "nodes": [_st2("TB")]}]})
     # a file reached through an earlier include is included again, in every position of the
     # include list (diamond onto a non-leaf file, followed / preceded by further includes)
     import itertools
